@@ -186,6 +186,16 @@ func genC13(tier string, r *rng, emit func(string)) {
 		emit("prog f64 " + c)
 		emit("prog i " + c + ";at:0:1,1")
 	}
+	// a CONTIGUOUS view (a run of leading rows, a single leading index) with a pending lazy
+	// transpose is reshaped after its data were moved into the transposed order; the reshaped view,
+	// its parent, a second reshape back and an undo afterwards
+	for _, c := range []string{"new:rm:4,3:0;slice:0:1.3.1;T:1:_;reshape:1:6", "new:rm:4,3:0;slice:0:1.3.1;T:1:_;reshape:1:6;reshape:1:2,3;UT:1",
+		"new:rm:4,3:0;slice:0:1.3.1;T:1:_;reshape:1:3,2;at:1:2,1;at:0:1,1", "new:rm:3,2,3:0;slice:0:1.2.0;T:1:_;reshape:1:6;at:1:4",
+		"new:rm:3,2,3:0;slice:0:1.3.1;T:1:1,0,2;reshape:1:4,3", "new:rm:3,2,3:0;slice:0:0.2.1;T:1:2,1,0;reshape:1:12;reshape:1:3,4;T:1:_",
+		"new:rm:4,3:0;slice:0:1.3.1;T:1:_;T:1:_;reshape:1:6", "new:rm:4,3:0;slice:0:1.3.1;reshape:1:6;T:1:_", "new:rm:6:0;slice:0:1.5.1;reshape:1:2,2;T:1:_;reshape:1:4"} {
+		emit("prog f64 " + c)
+		emit("prog i " + c)
+	}
 	// found by the proof of history_refines (RefineProofs.v), not by the generators: Reshape of a
 	// slice along the leading axis of a lazily transposed tensor (its contiguity flag is unsound: F5)
 	for _, p := range []string{"new:rm:2,3:1;T:0:_;slice:0:0.2.1;reshape:1:4", "new:rm:3,3:1;T:0:1,0;slice:0:0.2.1;reshape:1:6",
